@@ -40,6 +40,16 @@ def f18_fixed(repo):
     return "sender.AccountID()" in src and "receiver.AccountID()" in src
 
 
+def f24_fixed(repo):
+    """F30 (Coq flag c_fix_f24): the FEEDELEGATION fee is debited on the sender object when sender and receiver are the same
+    account; recognised by the second `sender.AccountID() == receiver.AccountID()` test in executeTx."""
+    try:
+        src = open(os.path.join(repo, "chain/chainhandle.go")).read()
+    except OSError:
+        return False
+    return src.count("sender.AccountID() == receiver.AccountID()") >= 2
+
+
 # ------------------------------------------------------------------ generator
 class Gen:
     def __init__(self, rng, cid, mode, focus=None):
@@ -384,8 +394,8 @@ def coq_case(c, init, fixed, name):
         if o[0] or o[1]:
             nms.append("(%s, (%s, %s))" % (Ns(n), Ns(o[0]), Ns(o[1])))
     cfg = ("{| c_version := %d; c_zerofee := %s; c_gas_price := %s; c_chain := 7%%N; c_name_price := %s; c_stake_min := %s; "
-           "c_stake_delay := %d%%N; c_fix_f18 := %s |}" % (c["version"], "true" if c["zerofee"] else "false", init["gasPrice"],
-                                                            init["namePrice"], init["stakeMin"], STAKE_DELAY, "true" if fixed else "false"))
+           "c_stake_delay := %d%%N; c_fix_f24 := %s; c_fix_f18 := %s |}" % (c["version"], "true" if c["zerofee"] else "false", init["gasPrice"],
+                                                            init["namePrice"], init["stakeMin"], STAKE_DELAY, "true" if f24_fixed(vf.REPO) else "false", "true" if fixed else "false"))
     vms, blocks, h = [], [], 0
     for b in c["blocks"]:
         txs = []
@@ -440,7 +450,10 @@ def parse_chk(out):
     res = {}
     for m in re.finditer(r"(\w+) =\s*(\[[^\]]*\]|nil)\s*:\s*list Z", out, re.S):
         body = m.group(2)
-        res[m.group(1)] = [int(x) for x in re.findall(r"-?\d+", body)] if body != "nil" else []
+        items = [int(x) for x in re.findall(r"-?\d+", body)] if body != "nil" else []
+        if not items and body not in ("nil", "[]") and body.strip("[] \n\t"):
+            items = None     # non-empty list text but nothing parsed: treat as an evaluation failure
+        res[m.group(1)] = items
     return res
 
 
@@ -533,6 +546,9 @@ def predicates(c, obs):
                     fails.append(("C04", "wrong-chain-executed", "a transaction bound to another chain id was executed", {"tx": t}))
                 if str(sid) in prev["acc"] and t["nonce"] != prev["acc"][str(sid)]["n"] + 1:
                     fails.append(("C04", "nonce-not-next", "executed nonce is not current+1", {"tx": t, "current": prev["acc"][str(sid)]["n"]}))
+                if str(sid) in d["acc"] and d["acc"][str(sid)]["n"] != t["nonce"]:
+                    fails.append(("C04", "nonce-not-advanced", "an executed transaction did not set its sender's nonce to the transaction nonce",
+                                  {"tx": t, "sender_nonce_after": d["acc"][str(sid)]["n"]}))
                 blk_exec.setdefault(sid, []).append(t["nonce"])
                 blk_hashes.append((o["hash"], t))
                 if o["res"] == "err":
@@ -669,6 +685,35 @@ def corpus_cases(pid):
                                                                            T("unstake", 10, 2, amount=str(10000 * AERGO)),
                                                                            T("transfer", 11, 1, to=1, amount="12345")]}],
              "stake", zerofee=zf, coinbase=cb)
+    # F30 (g7 working name F24): FEEDELEGATION whose sender is an account name resolving to the called contract itself: two
+    # AccountState copies of one account, the fee is debited on the copy that is never written back
+    vmok = lambda fee: {"res": "ok", "fee": str(fee), "transfers": [], "writes": []}
+    for mode in ("exec", "chain"):
+        case(mode, [{"no": 5, "validator": False, "txs": [dict(T("deploy", 10, 1, amount=str(5 * AERGO), plen=10, cid=100), vm=vmok(0)),
+                                                           T("namecreate", 10, 2, name=200, amount=str(AERGO))]},
+                    {"no": 6, "validator": False, "txs": [T("nameupdate", 10, 3, name=200, dest=100, amount=str(AERGO))]},
+                    {"no": 7, "validator": False, "txs": [dict(T("feedeleg", 200, 1, to=100, plen=5, signer=10), vm=vmok(10 ** 15)),
+                                                           dict(T("call", 200, 2, to=100, plen=5, signer=10, amount="7"), vm=vmok(10 ** 12)),
+                                                           dict(T("feedeleg", 200, 3, to=100, plen=5, signer=10), vm={"res": "rt", "fee": "1000", "transfers": [], "writes": []})]}],
+             "f30", cids={"100": [10, 1]}, ids=[1, 2, 3, 10, 11, 12, 30, 100], names=[2, 200, 201])
+    # staged-but-unwritten storage: a successful call without writes stages the contract storage; later
+    # calls on the same contract in the same block write and then fail NON-runtime (system error after
+    # effects / negative fee): the executor's rollback must remove those writes from the staged buffer
+    case("exec", [{"no": 5, "validator": False, "txs": [dict(T("deploy", 10, 1, amount=str(5 * AERGO), plen=10, cid=100), vm=vmok(0))]},
+                  {"no": 6, "validator": False, "txs": [
+                      dict(T("call", 11, 1, to=100, plen=5), vm=vmok(0)),
+                      dict(T("call", 10, 2, to=100, plen=5), vm={"res": "sys", "fee": "0", "transfers": [["11", "1"]], "writes": [[1, 9]]}),
+                      dict(T("call", 10, 2, to=100, plen=5), vm={"res": "ok", "fee": "-5", "transfers": [["11", "2"]], "writes": [[2, 5]]}),
+                      dict(T("call", 11, 2, to=100, plen=5), vm={"res": "ok", "fee": "0", "transfers": [], "writes": [[3, 4]]})]}],
+         "staged", cids={"100": [10, 1]}, ids=[1, 2, 3, 10, 11, 12, 30, 100], ckeys=[[100, 1], [100, 2], [100, 3]])
+    # a FEEDELEGATION call that fails at run time (ERROR receipt: sender nonce advances, contract pays), then
+    # the identical transaction again in the next block: must be rejected (nonce too low)
+    fdrt = dict(T("feedeleg", 11, 1, to=100, plen=5), vm={"res": "rt", "fee": "1000", "transfers": [], "writes": []})
+    for mode in ("exec", "chain"):
+        case(mode, [{"no": 5, "validator": False, "txs": [dict(T("deploy", 10, 1, amount=str(5 * AERGO), plen=10, cid=100), vm=vmok(0))]},
+                    {"no": 6, "validator": False, "txs": [fdrt]},
+                    {"no": 7, "validator": False, "txs": [dict(fdrt, replayof=2), T("transfer", 11, 2, to=10, amount="5")]}],
+             "fdreplay", cids={"100": [10, 1]}, ids=[1, 2, 3, 10, 11, 12, 30, 100])
     if pid == "C04":
         ok = lambda n, frm=10: T("transfer", frm, n, to=11, amount="1000")
         # F23: block 0 fails during execution (all signatures valid) -> its verification result stays
@@ -683,6 +728,16 @@ def corpus_cases(pid):
         case("chain", [{"txs": [ok(1), ok(2)]}, {"txs": [dict(ok(1), replayof=1, force=True)]}, {"txs": [ok(3)]}], "replay")
         case("chain", [{"txs": [ok(1), dict(ok(2), chainok=False, force=True)]}], "chainid")
         case("chain", [{"txs": [ok(1), dict(ok(2), signer=11)]}], "forged")
+        # F25: a signed tx whose Account is a name executes twice: as the name's first destination (account
+        # 10) and, after the owner re-pointed the name to a contract it created, as that contract
+        Tt = T("transfer", 200, 3, to=11, amount=str(AERGO), signer=10)
+        for mode in ("exec", "chain"):
+            case(mode, [{"no": 5, "validator": False, "txs": [T("namecreate", 10, 1, name=200, amount=str(AERGO)),
+                                                               dict(T("deploy", 10, 2, amount=str(5 * AERGO), plen=10, cid=100), vm=vmok(0))]},
+                        {"no": 6, "validator": False, "txs": [Tt, T("nameupdate", 10, 4, name=200, dest=100, amount=str(AERGO))]},
+                        {"no": 7, "validator": False, "txs": [T("transfer", 200, 1, to=11, amount="0", signer=10),
+                                                               T("transfer", 200, 2, to=11, amount="0", signer=10), dict(Tt, replayof=3)]}],
+                 "f25", cids={"100": [10, 2]}, ids=[1, 2, 3, 10, 11, 12, 30, 100], names=[2, 200, 201])
     return out
 
 
@@ -714,7 +769,7 @@ def run_check(ctx, pid):
     for c in corpus_cases(pid):
         c["id"] = len(cases) + 1
         cases.append(c)
-    nrand = 32 if quick else 700
+    nrand = 28 if quick else 700
     chain_every = {"C01": 5, "C03": 4, "C04": 2}[pid]
     for i in range(nrand):
         mode = "chain" if i % chain_every == chain_every - 1 else "exec"
@@ -752,6 +807,15 @@ def run_check(ctx, pid):
     for c in cases[:2]:
         ctx.sample({"case": {k: c[k] for k in ("mode", "version", "zerofee", "coinbase")}, "first_tx": c["blocks"][0]["txs"][0],
                     "first_obs": {k: obs[c["id"]][1].get(k) for k in ("res", "errs", "fee", "status")}})
+    if pid == "C01":
+        rst, rpred, rcorr = run_reward(ctx)
+        st["voting_reward"] = rst
+        ctx.cov["evaluations"] += rst["cases"]
+        ctx.cov["traces_validated_against_impl"] += rst["cases"]
+        for key, what, det in rpred:
+            pred.append((det.get("case"), ("C01", key, what, det)))
+        for d in rcorr:
+            corr.append((d.get("case"), d))
     # ---- decide: direct predicate failures of THIS property first
     mine = [(c, f) for c, f in pred if f[0] == pid]
     seen = set()
@@ -760,6 +824,10 @@ def run_check(ctx, pid):
         if pid == "C01" and f[1] == "supply":
             alias = any(t["kind"] == "setowner" and t["dest"] in (t["from"], 2) for b in c["blocks"] for t in b["txs"])
             key = "C01:F18-name-owner-alias" if (alias and not fixed) else "C01:supply"
+            if c.get("tag") == "f30" and not f24_fixed(ctx.repo):
+                key = "C01:F30-feedeleg-self"
+        if pid == "C04" and f[1] == "tx-twice" and c.get("tag") == "f25":
+            key = "C04:F25-name-repoint-replay"
         if key in seen:
             continue
         seen.add(key)
@@ -770,3 +838,72 @@ def run_check(ctx, pid):
         c, d = corr[0]
         ctx.violation("correspondence broken: model and implementation differ (%s)" % d.get("observable", d["what"]),
                       {"difference": d, "case": c, "other_differing_cases": len(corr) - 1}, no_input=True)
+
+
+# ------------------------------------------------------------------ voting reward (dpos.sendVotingReward)
+def run_reward(ctx):
+    """Real dpos.sendVotingReward on scripted vault / voters / seed; model = Ledger.send_voting_reward with the
+    winner the implementation appointed.  Returns (evaluations, predicate failures, correspondence failures)."""
+    rc, log, path = ctx.go_test_binary(
+        "consensus/impl/dpos", [os.path.join(L, "zz_verif_reward_engine_test.go")], "reward.test",
+        overlay_extra={"contract/zz_vmstub_verif.go": os.path.join(L, "zz_vmstub_ledger.go.txt")})
+    if rc != 0:
+        raise RuntimeError("reward engine build failed:\n" + log[-3000:])
+    r = ctx.rng
+    cases = []
+    n = 40 if ctx.tier == "quick" else 400
+    for i in range(n):
+        k = r.randint(0, 4)
+        voters = []
+        for j in range(k):
+            stake = r.choice([10000, 10000, 20000, 35000]) * AERGO
+            voters.append({"id": 10 + j, "fund": str(stake + r.randint(0, 5) * AERGO),
+                           "stake": str(stake) if r.random() < 0.85 else ""})
+        vault = r.choice([0, 1, 1000, 16 * 10 ** 16, 16 * 10 ** 16 - 1, 16 * 10 ** 16 + 1, 5 * AERGO, r.randint(0, 10 ** 19)])
+        cases.append({"id": i + 1, "vault": str(vault), "voters": voters, "seed": "%016x" % r.getrandbits(64) + "00" * 24})
+    fin = os.path.join(ctx.workdir, "reward.in")
+    fout = os.path.join(ctx.workdir, "reward.out")
+    with open(fin, "w") as f:
+        for c in cases:
+            f.write(json.dumps(c) + "\n")
+    rc, log = ctx.run_bin(path, ["-test.run", "TestVerifRewardEngine"], env={"VERIF_IN": fin, "VERIF_OUT": fout})
+    if rc != 0:
+        raise RuntimeError("reward engine failed:\n" + log[-3000:])
+    obs = [json.loads(l) for l in open(fout)]
+    pred, corr, txt = [], [], [HEADER]
+    winners = 0
+    for c, o in zip(cases, obs):
+        if o.get("err"):
+            pred.append(("reward-error", "sendVotingReward failed: " + o["err"], {"case": c}))
+            continue
+        ids = sorted(int(k) for k in o["before"])
+        b = {int(k): int(x) for k, x in o["before"].items()}
+        a = {int(k): int(x) for k, x in o["after"].items()}
+        if int(o["sumBefore"]) != int(o["sumAfter"]):
+            pred.append(("reward-supply", "sendVotingReward changed the sum of balances by %d" % (int(o["sumAfter"]) - int(o["sumBefore"])), {"case": c, "obs": o}))
+        if not o["nonceOK"]:
+            pred.append(("reward-nonce", "sendVotingReward changed a nonce", {"case": c}))
+        w = o["winner"]
+        if w > 0:
+            winners += 1
+            exp = min(int(o["reward"]), b[3])
+            if a[w] - b[w] != exp or b[3] - a[3] != exp:
+                pred.append(("reward-amount", "winner gained %d, vault lost %d, expected %d" % (a[w] - b[w], b[3] - a[3], exp), {"case": c, "obs": o}))
+        elif w == 0 and a != b:
+            pred.append(("reward-nowinner", "balances changed although no winner was appointed", {"case": c, "obs": o}))
+        accs = "; ".join("(%s, {| bal := %s; nonce := 0%%N; code := false |})" % (Ns(i), Zs(b[i])) for i in ids)
+        txt.append("Definition R%d := Eval vm_compute in (let s' := send_voting_reward %s %s (mk_state [%s] [] 0 []) in map (fun id => bal (acct_of s' id)) [%s]).\nPrint R%d.\n" % (
+            c["id"], Zs(int(o["reward"])), "(Some %s)" % Ns(w) if w > 0 else "None", accs, "; ".join(Ns(i) for i in ids), c["id"]))
+    rc, out = ctx.coq_eval("reward", "\n".join(txt))
+    if rc != 0:
+        corr.append({"what": "reward model evaluation failed", "detail": out[-1500:]})
+    else:
+        pv = parse_chk(out)
+        for c, o in zip(cases, obs):
+            if o.get("err") or o["winner"] < 0:
+                continue
+            ids = sorted(int(k) for k in o["before"])
+            want = [int(o["after"][str(i)]) for i in ids]
+            if pv.get("R%d" % c["id"]) != want:
+                corr.append({"what": "voting reward: model and implementation differ", "case": c, "engine": want, "model": pv.get("R%d" % c["id"])})
+    return {"cases": len(cases), "winners": winners}, pred, corr
